@@ -58,10 +58,13 @@ Proof.
   - apply find_some in H. tauto.
 Qed.
 
-Lemma scan_valid_n : forall n argv trailing acc out, (length argv <= n)%nat ->
-  Forall valid_entry acc -> scan spec argv trailing acc = PParsed out -> Forall valid_entry out.
+(* any property of the accumulated record that every accepted occurrence preserves holds of the parsed record *)
+Lemma scan_inv_n : forall (Inv : list (str * str) -> Prop),
+  (forall a v acc acc', In a spec -> push a v acc = Some acc' -> Inv acc -> Inv acc') ->
+  forall n argv trailing acc out, (length argv <= n)%nat ->
+  Inv acc -> scan spec argv trailing acc = PParsed out -> Inv out.
 Proof.
-  induction n; intros argv trailing acc out Hlen Hacc H.
+  intros Inv Hpush. induction n; intros argv trailing acc out Hlen Hacc H.
   - destruct argv; [|cbn in Hlen; lia]. cbn in H. inversion H; subst; assumption.
   - destruct argv as [|t rest]; [cbn in H; inversion H; subst; assumption|].
     cbn in Hlen. cbn [scan] in H.
@@ -69,10 +72,10 @@ Proof.
       match next_positional spec acc with
       | None => PUsage
       | Some a => match push a t acc with None => PUsage | Some acc' => scan spec rest r acc' end
-      end = PParsed out -> Forall valid_entry out).
+      end = PParsed out -> Inv out).
     { intros r Hp. destruct (next_positional spec acc) eqn:En; [|discriminate].
       destruct (push a t acc) eqn:Ep; [|discriminate].
-      eapply IHn; [| |exact Hp]; [lia|]. eapply push_valid; eauto using next_positional_in. }
+      eapply IHn; [| |exact Hp]; [lia|]. eapply Hpush; eauto using next_positional_in. }
     destruct trailing; [apply (Hpos true); exact H|].
     destruct (str_eqb t "--"); [eapply IHn; [| |exact H]; [lia|assumption]|].
     destruct (long_body t) as [body|].
@@ -83,39 +86,79 @@ Proof.
       apply find_long_in in Ef.
       destruct (a_kind a).
       * destruct oval; [discriminate|]. destruct (push a "" acc) eqn:Ep; [|discriminate].
-        eapply IHn; [| |exact H]; [lia|]. eapply push_valid; eauto.
+        eapply IHn; [| |exact H]; [lia|]. eapply Hpush; eauto.
       * destruct oval as [v|].
         -- destruct (push a v acc) eqn:Ep; [|discriminate].
-           eapply IHn; [| |exact H]; [lia|]. eapply push_valid; eauto.
+           eapply IHn; [| |exact H]; [lia|]. eapply Hpush; eauto.
         -- destruct rest as [|v rest']; [discriminate|].
            destruct (looks_like_option v); [discriminate|].
            destruct (push a v acc) eqn:Ep; [|discriminate].
-           eapply IHn; [| |exact H]; [cbn in Hlen; lia|]. eapply push_valid; eauto.
+           eapply IHn; [| |exact H]; [cbn in Hlen; lia|]. eapply Hpush; eauto.
       * destruct oval as [v|].
         -- destruct (push a v acc) eqn:Ep; [|discriminate].
-           eapply IHn; [| |exact H]; [lia|]. eapply push_valid; eauto.
+           eapply IHn; [| |exact H]; [lia|]. eapply Hpush; eauto.
         -- destruct rest as [|v rest']; [discriminate|].
            destruct (looks_like_option v); [discriminate|].
            destruct (push a v acc) eqn:Ep; [|discriminate].
-           eapply IHn; [| |exact H]; [cbn in Hlen; lia|]. eapply push_valid; eauto.
+           eapply IHn; [| |exact H]; [cbn in Hlen; lia|]. eapply Hpush; eauto.
       * destruct oval as [v|].
         -- destruct (push a v acc) eqn:Ep; [|discriminate].
-           eapply IHn; [| |exact H]; [lia|]. eapply push_valid; eauto.
+           eapply IHn; [| |exact H]; [lia|]. eapply Hpush; eauto.
         -- destruct rest as [|v rest']; [discriminate|].
            destruct (looks_like_option v); [discriminate|].
            destruct (push a v acc) eqn:Ep; [|discriminate].
-           eapply IHn; [| |exact H]; [cbn in Hlen; lia|]. eapply push_valid; eauto.
+           eapply IHn; [| |exact H]; [cbn in Hlen; lia|]. eapply Hpush; eauto.
       * destruct oval as [v|].
         -- destruct (push a v acc) eqn:Ep; [|discriminate].
-           eapply IHn; [| |exact H]; [lia|]. eapply push_valid; eauto.
+           eapply IHn; [| |exact H]; [lia|]. eapply Hpush; eauto.
         -- destruct rest as [|v rest']; [discriminate|].
            destruct (looks_like_option v); [discriminate|].
            destruct (push a v acc) eqn:Ep; [|discriminate].
-           eapply IHn; [| |exact H]; [cbn in Hlen; lia|]. eapply push_valid; eauto.
+           eapply IHn; [| |exact H]; [cbn in Hlen; lia|]. eapply Hpush; eauto.
     + destruct (looks_like_option t).
       * unfold short_action in H. destruct t as [|c1 t1]; [discriminate|].
         destruct t1 as [|c2 t2]; repeat (match type of H with context [match ?x with _ => _ end] => destruct x end; try discriminate).
       * apply (Hpos false); exact H.
+Qed.
+
+Lemma scan_valid_n : forall n argv trailing acc out, (length argv <= n)%nat ->
+  Forall valid_entry acc -> scan spec argv trailing acc = PParsed out -> Forall valid_entry out.
+Proof. intros n argv trailing acc out. apply (scan_inv_n (Forall valid_entry)). intros; eapply push_valid; eauto. Qed.
+
+(* a flag / a single-valued option occurs at most once in the parsed record: a repeated one is a usage error *)
+Definition fields_unique : Prop := forall a a', In a spec -> In a' spec -> a_field a = a_field a' -> a = a'.
+Definition once (acc : list (str * str)) : Prop :=
+  forall a, In a spec -> single (a_kind a) = true -> (length (values_of acc (a_field a)) <= 1)%nat.
+
+Lemma values_of_app : forall acc f v fld,
+  values_of (acc ++ [(f, v)]) fld = (values_of acc fld ++ (if str_eqb f fld then [v] else []))%list.
+Proof.
+  intros. unfold values_of. rewrite filter_app, map_app. cbn. destruct (str_eqb f fld); reflexivity.
+Qed.
+Lemma has_field_false_values : forall acc fld, has_field acc fld = false -> values_of acc fld = [].
+Proof.
+  induction acc as [|[f v] acc IH]; intros fld H; [reflexivity|]. unfold has_field in H. cbn in H.
+  apply orb_false_iff in H. destruct H as [H1 H2]. unfold values_of. cbn. rewrite H1. apply IH. exact H2.
+Qed.
+Lemma push_once : fields_unique -> forall a v acc acc', In a spec -> push a v acc = Some acc' -> once acc -> once acc'.
+Proof.
+  intros Hu a v acc acc' Hin H Hacc a' Ha' Hs. unfold push in H.
+  destruct (vp_accepts (a_vp a) v); cbn in H; [|discriminate].
+  destruct (single (a_kind a) && has_field acc (a_field a)) eqn:E; [discriminate|].
+  inversion H; subst acc'. rewrite values_of_app.
+  destruct (str_eqb (a_field a) (a_field a')) eqn:Ef.
+  - apply str_eqb_eq in Ef. assert (a = a') by (apply Hu; assumption). subst a'.
+    rewrite Hs in E. cbn in E. rewrite (has_field_false_values _ _ E). cbn. auto.
+  - rewrite app_nil_r. apply Hacc; assumption.
+Qed.
+Lemma parse_once : fields_unique -> forall group argv out, parse spec group argv = PParsed out -> once out.
+Proof.
+  intros Hu group argv out H. unfold parse in H.
+  destruct (scan spec argv false []) eqn:Es; try discriminate.
+  destruct (Nat.ltb 1 (group_members_present group vals)); [discriminate|].
+  destruct (required_present spec vals); cbn in H; [|discriminate]. inversion H; subst.
+  eapply (scan_inv_n once); [intros; eapply push_once; eauto|reflexivity| |exact Es].
+  intros a _ _. cbn. auto.
 Qed.
 
 (* every value that reaches main_result went through the value parser of an option of that name *)
@@ -154,6 +197,32 @@ Definition vp_of_field (fld : str) : vparser :=
   match find (fun a => str_eqb (a_field a) fld) CLI with Some a => a_vp a | None => VString end.
 Definition stackwalk (pid : str -> path) (argv : list str) (e : env) : list cli_event * Z :=
   run_argv pid CLI GROUP DEFAULTS ARMS argv e.
+
+Fixpoint fields_nodup (l : list arg_spec) : bool :=
+  match l with
+  | [] => true
+  | a :: r => negb (existsb (fun b => str_eqb (a_field a) (a_field b)) r) && fields_nodup r
+  end.
+Lemma fields_nodup_unique : forall l, fields_nodup l = true -> fields_unique l.
+Proof.
+  induction l as [|x l IH]; intros H a a' Ha Ha' Hf; [destruct Ha|].
+  cbn in H. apply andb_true_iff in H. destruct H as [Hx Hl]. apply negb_true_iff in Hx.
+  assert (Hno : forall b, In b l -> a_field x <> a_field b).
+  { intros b Hb E. assert (existsb (fun b => str_eqb (a_field x) (a_field b)) l = true); [|congruence].
+    apply existsb_exists. exists b. split; [exact Hb|]. apply str_eqb_eq. exact E. }
+  destruct Ha as [Ha|Ha], Ha' as [Ha'|Ha']; subst.
+  - reflexivity.
+  - exfalso. eapply Hno; eauto.
+  - exfalso. eapply Hno; eauto.
+  - apply IH; assumption.
+Qed.
+Lemma cli_fields_unique : fields_unique CLI.
+Proof. apply fields_nodup_unique. reflexivity. Qed.
+
+(* a flag or single-valued option of minidump-stackwalk given twice never reaches main(): it is a usage error *)
+Lemma cli_single_once : forall argv out, parse CLI GROUP argv = PParsed out ->
+  forall a, In a CLI -> single (a_kind a) = true -> (length (values_of out (a_field a)) <= 1)%nat.
+Proof. intros argv out H. exact (parse_once CLI cli_fields_unique GROUP argv out H). Qed.
 
 (* `--features`: every value clap lets through has an arm in `match &*cli.features` *)
 Lemma features_value_has_arm : forall s,
